@@ -140,6 +140,9 @@ func checkC13(rc *Run) error {
 			if json.Unmarshal(js, &m) != nil {
 				return
 			}
+			if ill, _ := m["ill"].(bool); ill {
+				return // ill-typed merges: no value defined, exercised by C11 only
+			}
 			v := vec{Doc: m["doc"], Resolved: fromSpec(m["resolved"]), DevExpl: fromSpec(m["devExplode"]), DevTrav: fromSpec(m["devTraverse"])}
 			if ps, ok := m["paths"].([]interface{}); ok {
 				v.Paths = ps
